@@ -22,6 +22,20 @@ fn main() {
         verif_harness::props::c08::worker(&args[k + 1], args[k + 2].parse().unwrap_or(0));
         return;
     }
+    if args.iter().any(|a| a == "--ctx") {
+        // probe --ctx: compile stdin; on a syntax error print the report and contextualize's rendering
+        use rasn_compiler::prelude::*;
+        let mut s = String::new();
+        std::io::stdin().read_to_string(&mut s).unwrap();
+        match Compiler::<RasnBackend, _>::new().add_asn_literal(&s).compile_to_string() {
+            Ok(_) => println!("OK"),
+            Err(e) => {
+                println!("{e:?}");
+                println!("{}", e.contextualize(&s));
+            }
+        }
+        return;
+    }
     if args.iter().any(|a| a == "--canon") {
         // probe --canon [--no-opaque]: compile stdin in this fresh process and print the canonical result (C11)
         let mut s = String::new();
